@@ -15,7 +15,7 @@
 //        receives is logged as an event (validated by TLC against spec/Traversal/RouteTrace.tla) and judged by a direct monitor.
 //
 // Report: one ndjson line per violating / known / hung case and a final {"summary":true,...} line.  Exit 0 unless the harness could
-// not run; exit 4 = watchdog (the report then ends with a {"hang":...} line).
+// not run; exit 4 = watchdog (the report then ends with a {"hang":...} line), exit 5 = the code under test crashed ({"crash":signal,...}).
 #include "reflector/ReflectServer.h"
 #include "reflector/StorageReflectSession.h"
 #include "reflector/StorageReflectConstants.h"
@@ -50,6 +50,12 @@ static void OnAlarm(int)
    if (g_report) fflush(g_report);
    if (g_reportFd >= 0) {ssize_t w = write(g_reportFd, b, n); (void) w;}
    _exit(4);
+}
+static void OnCrash(int sig)
+{
+   char b[1400]; int n = snprintf(b, sizeof(b), "\n{\"crash\":%d,\"where\":\"%s\"}\n", sig, g_where);
+   if (g_reportFd >= 0) {ssize_t w = write(g_reportFd, b, n); (void) w;}
+   _exit(5);
 }
 static void Where(const char * fmt, long a = 0, long b = 0) {snprintf(g_where, sizeof(g_where), fmt, a, b);}
 static void ReportLine(const mj::Value & v) {std::string s = mj::ToString(v); fprintf(g_report, "%s\n", s.c_str()); fflush(g_report);}
@@ -443,7 +449,7 @@ int MainHist(int argc, char ** argv);
 int main(int argc, char ** argv)
 {
    CompleteSetupSystem css; SetConsoleLogLevel(MUSCLE_LOG_CRITICALERROR);
-   signal(SIGALRM, OnAlarm); signal(SIGPIPE, SIG_IGN);
+   signal(SIGALRM, OnAlarm); signal(SIGPIPE, SIG_IGN); signal(SIGSEGV, OnCrash); signal(SIGBUS, OnCrash); signal(SIGFPE, OnCrash); signal(SIGABRT, OnCrash); signal(SIGILL, OnCrash);
    BuildMenu();
    if (argc < 2) {fprintf(stderr, "usage: route trav|hist|replay ...\n"); return 2;}
    const std::string mode = argv[1];
